@@ -68,10 +68,26 @@ def call(op, name):
     elif op == "topology":
         b, n = branches_and_nodes(traces, areas, t, already_clipped=False)
         res = {"branches": digest_geoms(b.geometry.values), "conn": list(b["Connection"]), "nodes": digest_geoms(n.geometry.values), "cls": list(n["Class"])}
+    elif op == "grid":
+        # contour-grid sampling over a caller-owned precursor grid (2 x 2 cells): the caller's grid is part of the caller's data
+        import geopandas as gpd
+        from shapely.geometry import box as _box
+
+        from fractopo.analysis.contour_grid import run_grid_sampling
+
+        b, n = branches_and_nodes(traces, areas, t, already_clipped=False)
+        grid = gpd.GeoDataFrame({"cell": [0, 1, 2, 3]}, geometry=[_box(x, y, x + 6, y + 6) for x in (-6, 0) for y in (-6, 0)], index=[7, 5, 3, 1], crs=traces.crs)
+        out = run_grid_sampling(traces=traces, branches=b, nodes=n, cell_width=6.0, snap_threshold=t, precursor_grid=grid)
+        num = [c for c in out.columns if c not in ("geometry", "cell")]
+        res = {"cols": sorted(out.columns), "index": [int(x) for x in out.index],
+               "values": {c: [None if v != v else round(float(v), 9) for v in out[c]] for c in sorted(num)[:12]}}
+        extra = {"grid_cols": sorted(grid.columns), "grid_index": [int(x) for x in grid.index]}
     else:
         raise ValueError(op)
     side = {"index": [int(x) for x in traces.index], "cols": list(traces.columns), "geoms": digest_geoms(traces.geometry.values),
             "area_index": [int(x) for x in areas.index], "crs": str(traces.crs), "area_crs": str(areas.crs)}
+    if op == "grid":
+        side.update(extra)
     return {"result": res, "caller": side}
 
 
